@@ -154,6 +154,41 @@ fn chunked(data: &[u8], size: usize) -> impl Buf {
     Chunks { parts }
 }
 
+// the same decoder call over non-contiguous layouts of the same bytes (pieces of 1, 2, 3 and 7 bytes, two chunks cut
+// after every continuation byte): the answer must not depend on the layout
+fn layout_check(data: &[u8], main: &str, run: &dyn Fn(&mut dyn Buf) -> String) -> String {
+    // the buffers built here are the driver's own business: the peak reported for the case is the contiguous run's
+    let saved = PEAK.load(Ordering::Relaxed);
+    let r = layout_check_inner(data, main, run);
+    PEAK.store(saved, Ordering::Relaxed);
+    r
+}
+
+fn layout_check_inner(data: &[u8], main: &str, run: &dyn Fn(&mut dyn Buf) -> String) -> String {
+    for size in [1usize, 2, 3, 7] {
+        if size >= data.len() && size != 1 {
+            continue;
+        }
+        let mut c = chunked(data, size);
+        let s = run(&mut c);
+        if s != main {
+            return format!(" ORACLE-FAIL chunked buffer (pieces of {}) gives {}", size, s);
+        }
+    }
+    let mut cuts = 0;
+    for k in 1..data.len() {
+        if data[k - 1] & 0x80 != 0 && cuts < 16 {
+            cuts += 1;
+            let mut c = Bytes::copy_from_slice(&data[..k]).chain(Bytes::copy_from_slice(&data[k..]));
+            let s = run(&mut c);
+            if s != main {
+                return format!(" ORACLE-FAIL chained buffer (cut at {}) gives {}", k, s);
+            }
+        }
+    }
+    String::new()
+}
+
 macro_rules! num_module {
     ($name:expr, $cmd:expr, $toks:expr, $m:ident, $ty:ty, $conv:expr, $back:expr) => {{
         let conv = $conv;
@@ -182,27 +217,39 @@ macro_rules! num_module {
             }
             "mrg" => {
                 let wt = wt_of($toks[0].parse().map_err(|_| "wt")?)?;
-                let mut buf = Bytes::from(unhex($toks[1])?);
-                let mut v: $ty = Default::default();
-                match enc::$m::merge(wt, &mut v, &mut buf, DecodeContext::default()) {
-                    Ok(()) => Ok(format!("OK i{} R{}", back(v), buf.remaining())),
-                    Err(e) => Ok(format!("ERR {}", errclass(&e))),
-                }
+                let data = unhex($toks[1])?;
+                let run = |mut buf: &mut dyn Buf| -> String {
+                    let mut v: $ty = Default::default();
+                    match enc::$m::merge(wt, &mut v, &mut buf, DecodeContext::default()) {
+                        Ok(()) => format!("OK i{} R{}", back(v), buf.remaining()),
+                        Err(e) => format!("ERR {}", errclass(&e)),
+                    }
+                };
+                let mut buf = Bytes::from(data.clone());
+                let main = run(&mut buf);
+                let fails = layout_check(&data, &main, &run);
+                Ok(main + &fails)
             }
             "mrgr" => {
                 let wt = wt_of($toks[0].parse().map_err(|_| "wt")?)?;
-                let mut buf = Bytes::from(unhex($toks[1])?);
-                let mut vs: Vec<$ty> = Vec::new();
-                match enc::$m::merge_repeated(wt, &mut vs, &mut buf, DecodeContext::default()) {
-                    Ok(()) => {
-                        let mut s = String::from("OK [");
-                        for v in &vs {
-                            s.push_str(&format!(" i{}", back(*v)));
+                let data = unhex($toks[1])?;
+                let run = |mut buf: &mut dyn Buf| -> String {
+                    let mut vs: Vec<$ty> = Vec::new();
+                    match enc::$m::merge_repeated(wt, &mut vs, &mut buf, DecodeContext::default()) {
+                        Ok(()) => {
+                            let mut s = String::from("OK [");
+                            for v in &vs {
+                                s.push_str(&format!(" i{}", back(*v)));
+                            }
+                            format!("{} ] R{}", s, buf.remaining())
                         }
-                        Ok(format!("{} ] R{}", s, buf.remaining()))
+                        Err(e) => format!("ERR {}", errclass(&e)),
                     }
-                    Err(e) => Ok(format!("ERR {}", errclass(&e))),
-                }
+                };
+                let mut buf = Bytes::from(data.clone());
+                let main = run(&mut buf);
+                let fails = layout_check(&data, &main, &run);
+                Ok(main + &fails)
             }
             "rt" => {
                 let tag: u32 = $toks[0].parse().map_err(|_| "tag")?;
@@ -278,27 +325,39 @@ macro_rules! len_module {
             }
             "mrg" => {
                 let wt = wt_of($toks[0].parse().map_err(|_| "wt")?)?;
-                let mut buf = Bytes::from(unhex($toks[1])?);
-                let mut v: $ty = Default::default();
-                match enc::$m::merge(wt, &mut v, &mut buf, DecodeContext::default()) {
-                    Ok(()) => Ok(format!("OK b{} R{}", hex(&back(&v)), buf.remaining())),
-                    Err(e) => Ok(format!("ERR {}", errclass(&e))),
-                }
+                let data = unhex($toks[1])?;
+                let run = |mut buf: &mut dyn Buf| -> String {
+                    let mut v: $ty = Default::default();
+                    match enc::$m::merge(wt, &mut v, &mut buf, DecodeContext::default()) {
+                        Ok(()) => format!("OK b{} R{}", hex(&back(&v)), buf.remaining()),
+                        Err(e) => format!("ERR {}", errclass(&e)),
+                    }
+                };
+                let mut buf = Bytes::from(data.clone());
+                let main = run(&mut buf);
+                let fails = layout_check(&data, &main, &run);
+                Ok(main + &fails)
             }
             "mrgr" => {
                 let wt = wt_of($toks[0].parse().map_err(|_| "wt")?)?;
-                let mut buf = Bytes::from(unhex($toks[1])?);
-                let mut vs: Vec<$ty> = Vec::new();
-                match enc::$m::merge_repeated(wt, &mut vs, &mut buf, DecodeContext::default()) {
-                    Ok(()) => {
-                        let mut s = String::from("OK [");
-                        for v in &vs {
-                            s.push_str(&format!(" b{}", hex(&back(v))));
+                let data = unhex($toks[1])?;
+                let run = |mut buf: &mut dyn Buf| -> String {
+                    let mut vs: Vec<$ty> = Vec::new();
+                    match enc::$m::merge_repeated(wt, &mut vs, &mut buf, DecodeContext::default()) {
+                        Ok(()) => {
+                            let mut s = String::from("OK [");
+                            for v in &vs {
+                                s.push_str(&format!(" b{}", hex(&back(v))));
+                            }
+                            format!("{} ] R{}", s, buf.remaining())
                         }
-                        Ok(format!("{} ] R{}", s, buf.remaining()))
+                        Err(e) => format!("ERR {}", errclass(&e)),
                     }
-                    Err(e) => Ok(format!("ERR {}", errclass(&e))),
-                }
+                };
+                let mut buf = Bytes::from(data.clone());
+                let main = run(&mut buf);
+                let fails = layout_check(&data, &main, &run);
+                Ok(main + &fails)
             }
             "rt" => {
                 let tag: u32 = $toks[0].parse().map_err(|_| "tag")?;
@@ -423,11 +482,17 @@ fn run_case(line: &str) -> Result<String, String> {
             Ok(format!("{} L{}", hex(&buf), enc::key_len(tag)))
         }
         "dkey" => {
-            let mut b = Bytes::from(unhex(toks[1])?);
-            match enc::decode_key(&mut b) {
-                Ok((tag, wt)) => Ok(format!("OK {} {} R{}", tag, wt as u8, b.remaining())),
-                Err(e) => Ok(format!("ERR {}", errclass(&e))),
-            }
+            let data = unhex(toks[1])?;
+            let run = |mut b: &mut dyn Buf| -> String {
+                match enc::decode_key(&mut b) {
+                    Ok((tag, wt)) => format!("OK {} {} R{}", tag, wt as u8, b.remaining()),
+                    Err(e) => format!("ERR {}", errclass(&e)),
+                }
+            };
+            let mut b = Bytes::from(data.clone());
+            let main = run(&mut b);
+            let fails = layout_check(&data, &main, &run);
+            Ok(main + &fails)
         }
         "skip" => {
             let wt = wt_of(toks[1].parse().map_err(|_| "wt")?)?;
@@ -449,11 +514,17 @@ fn run_case(line: &str) -> Result<String, String> {
             Ok(main)
         }
         "ld" | "lendelim" => {
-            let b = Bytes::from(unhex(toks[1])?);
-            match pilota::prost::decode_length_delimiter(b) {
-                Ok(v) => Ok(format!("OK {}", v)),
-                Err(e) => Ok(format!("ERR {}", errclass(&e))),
-            }
+            let data = unhex(toks[1])?;
+            let run = |b: &mut dyn Buf| -> String {
+                match pilota::prost::decode_length_delimiter(b) {
+                    Ok(v) => format!("OK {}", v),
+                    Err(e) => format!("ERR {}", errclass(&e)),
+                }
+            };
+            let mut b = Bytes::from(data.clone());
+            let main = run(&mut b);
+            let fails = layout_check(&data, &main, &run);
+            Ok(main + &fails)
         }
         "enc" | "encr" | "encp" | "mrg" | "mrgr" | "rt" | "rtr" | "rtp" => module_cmd(toks[0], toks[1], &toks[2..]),
         other => Err(format!("unknown suite {}", other)),
